@@ -170,7 +170,7 @@ pub fn run(o: &Opts, drv: &mut Driver, rep: &mut Report) {
     let reps = (if thorough { 12 } else { 1 }) * o.scale;
     for r in 0..reps { for deg in 0..=24usize { poly_case(&mut cx, &mut rng, deg, r * 25 + deg as u64); } }
     // Birkhoff / Lagrange
-    let nmax = if thorough { 11 } else { 7 };
+    let nmax = if thorough { 10 } else { 7 };
     let reps = (if thorough { 30 } else { 3 }) * o.scale;
     for _ in 0..reps { for n in 1..=nmax {
         birkhoff_case(&mut cx, &mut rng, n, false, false);
